@@ -276,3 +276,34 @@ func localStructAlloc(v ssa.Value) *ssa.Alloc {
 	}
 	return nil
 }
+
+// earlySuccessReturn finds a return inside the syntactic body of the loop (blocks dominated by the body entry) whose
+// last result is a nil error: the loop is abandoned as if everything had been processed.
+func (c *Ctx) earlySuccessReturn(li *loopInfo) ssa.Instruction {
+	if li.Body == nil {
+		return nil
+	}
+	fn := li.Header.Parent()
+	var found ssa.Instruction
+	for _, b := range fn.Blocks {
+		if !li.Body.Dominates(b) && !li.Blocks[b] {
+			continue
+		}
+		for _, in := range b.Instrs {
+			ret, ok := in.(*ssa.Return)
+			if !ok {
+				continue
+			}
+			res := retResults(ret)
+			if len(res) == 0 {
+				found = ret
+				continue
+			}
+			last := res[len(res)-1]
+			if last.Type().String() == "error" && isNilConst(last) {
+				found = ret
+			}
+		}
+	}
+	return found
+}
